@@ -1,44 +1,163 @@
 (* C06 - carried derivatives equal the true derivative.
-   Part 1: the fixed tactics that close the generated obligations coq/gen/obl/C06_*.v. *)
+   Part 1: derivative facts for the functions Coquelicot's auto_derive does not know
+           (tan, asin, acos, real powers), registered as UnaryDiff' instances;
+   Part 2: the FIXED tactics that close the generated obligations coq/gen/obl/C06_*.v;
+   Part 3 (C06Chain.v): the hand-written theorems (chain rule over expression trees, linearity,
+           missing key, stripping).
+   Axioms: only those of the standard library's real numbers / Coquelicot
+   (sig_forall_dec, sig_not_dec, functional_extensionality_dep, Classical_Prop.classic). *)
 From Coq Require Import Reals Lra Psatz List.
 From Coquelicot Require Import Coquelicot.
+From PM Require Import C06Defs.
 Local Open Scope R_scope.
 
+(* ------------------------------------------------------------------------- *)
+(* Part 1: elementary functions                                               *)
+(* ------------------------------------------------------------------------- *)
 Lemma c06_sqrt_neq_0_pos : forall x, sqrt x <> 0 -> 0 < x.
 Proof.
   intros x H. destruct (Rlt_le_dec 0 x) as [L|L]; [exact L|].
   exfalso. apply H. apply sqrt_neg_0. exact L.
 Qed.
 
+Lemma c06_sqrt_pos_neq_0 : forall x, 0 < x -> sqrt x <> 0.
+Proof. intros x H. pose proof (sqrt_lt_R0 x H). lra. Qed.
+
+Lemma c06_cos_sin_1 : forall t, cos t * cos t + sin t * sin t = 1.
+Proof. intros. pose proof (sin2_cos2 t) as H. unfold Rsqr in H. lra. Qed.
+
+Lemma c06_is_derive_tan : forall x, cos x <> 0 -> is_derive tan x (/ (cos x) ^ 2).
+Proof.
+  intros x H. unfold tan. auto_derive; [exact H|].
+  pose proof (c06_cos_sin_1 x) as E.
+  replace (/ cos x ^ 2) with ((cos x * cos x + sin x * sin x) * / cos x ^ 2) by (rewrite E; ring).
+  field. exact H.
+Qed.
+
+Lemma c06_one_minus_sq : forall x, -1 < x < 1 -> 0 < 1 - x * x.
+Proof. intros x [H1 H2]. nra. Qed.
+
+Lemma c06_is_derive_asin : forall x, -1 < x < 1 -> is_derive asin x (/ sqrt (1 - x * x)).
+Proof.
+  intros x H. apply is_derive_Reals.
+  pose proof (derive_pt_asin x H) as E.
+  pose proof (proj2_sig (derivable_pt_asin x H)) as D. simpl in D.
+  unfold derive_pt in E. rewrite E in D. unfold Rsqr in D.
+  replace (/ sqrt (1 - x * x)) with (1 / sqrt (1 - x * x)) by (unfold Rdiv; ring). exact D.
+Qed.
+
+Lemma c06_is_derive_acos : forall x, -1 < x < 1 -> is_derive acos x (- / sqrt (1 - x * x)).
+Proof.
+  intros x H. apply is_derive_Reals.
+  pose proof (derive_pt_acos x H) as E.
+  pose proof (proj2_sig (derivable_pt_acos x H)) as D. simpl in D.
+  unfold derive_pt in E. rewrite E in D. unfold Rsqr in D.
+  replace (- / sqrt (1 - x * x)) with (- 1 / sqrt (1 - x * x)) by (unfold Rdiv; ring). exact D.
+Qed.
+
+Lemma c06_is_derive_rpow : forall a x, 0 < x -> is_derive (rpow a) x (a * rpow (a - 1) x).
+Proof. intros a x H. apply is_derive_Reals. unfold rpow. apply derivable_pt_lim_power. exact H. Qed.
+
+Global Instance UnaryDiff_tan : UnaryDiff' tan :=
+  {| UnaryDiff'_f' := fun x => / (cos x) ^ 2; UnaryDiff'_df := fun x => cos x <> 0;
+     UnaryDiff'_H := c06_is_derive_tan |}.
+Global Instance UnaryDiff_asin : UnaryDiff' asin :=
+  {| UnaryDiff'_f' := fun x => / sqrt (1 - x * x); UnaryDiff'_df := fun x => -1 < x < 1;
+     UnaryDiff'_H := c06_is_derive_asin |}.
+Global Instance UnaryDiff_acos : UnaryDiff' acos :=
+  {| UnaryDiff'_f' := fun x => - / sqrt (1 - x * x); UnaryDiff'_df := fun x => -1 < x < 1;
+     UnaryDiff'_H := c06_is_derive_acos |}.
+Global Instance UnaryDiff_rpow : forall a, UnaryDiff' (rpow a) :=
+  fun a => {| UnaryDiff'_f' := fun x => a * rpow (a - 1) x; UnaryDiff'_df := fun x => 0 < x;
+              UnaryDiff'_H := c06_is_derive_rpow a |}.
+
+Lemma c06_rpow_half : forall x, 0 < x -> rpow (/ 2) x = sqrt x.
+Proof. intros. unfold rpow. apply Rpower_sqrt. assumption. Qed.
+
+Lemma c06_rpow_succ : forall a x, 0 < x -> rpow (a + 1) x = x * rpow a x.
+Proof. intros a x H. unfold rpow. rewrite Rpower_plus, Rpower_1 by assumption. ring. Qed.
+
+Lemma c06_rpow_pos : forall a x, 0 < rpow a x.
+Proof. intros. unfold rpow, Rpower. apply exp_pos. Qed.
+
+(* ------------------------------------------------------------------------- *)
+(* Part 2: the fixed tactics                                                  *)
+(* ------------------------------------------------------------------------- *)
 Ltac c06_hyps := repeat match goal with H : _ /\ _ |- _ => destruct H end.
 Ltac c06_zero := rewrite ?Rmult_0_l, ?Rplus_0_r in *.
 
-(* make all square roots of provably equal arguments syntactically equal *)
-Ltac c06_sqrt_unify :=
-  repeat match goal with
-  | |- context [sqrt ?a] =>
-      match goal with
-      | |- context [sqrt ?b] =>
-          tryif constr_eq a b then fail else
-            (let H := fresh "Hs" in
-             assert (H : sqrt b = sqrt a) by (apply f_equal; ring); rewrite H; clear H)
-      end
-  end.
-
-Ltac c06_nz :=
-  solve [ assumption | lra | nra
+Ltac c06_nz_base :=
+  solve [ assumption | lra | apply c06_rpow_pos
         | apply c06_sqrt_neq_0_pos; assumption
-        | match goal with H : ?b <> 0 |- ?a <> 0 => replace a with b by (field || ring); exact H end
+        | apply Rgt_not_eq; apply c06_rpow_pos
+        | match goal with H : ?b <> 0 |- ?a <> 0 => replace a with b by ring; exact H end
         | match goal with H : sqrt ?b <> 0 |- 0 < ?a => apply c06_sqrt_neq_0_pos; replace a with b by ring; exact H end
         | match goal with H : sqrt ?b <> 0 |- sqrt ?a <> 0 => replace a with b by ring; exact H end
+        | match goal with H : 0 < ?b |- 0 < ?a => replace a with b by ring; exact H end
+        | match goal with H : ?b > 0 |- 0 < ?a => replace a with b by ring; exact H end
+        | match goal with H : ?b > 0 |- sqrt ?a <> 0 => apply c06_sqrt_pos_neq_0; replace a with b by ring; exact H end
+        | match goal with H : ?b <> 0 |- ?a <> 0 => replace a with b by (field; repeat split; assumption); exact H end
+        | nra
         | auto with real ].
 
-Ltac c06_dom := c06_zero; repeat split; try exact I; c06_nz.
-Ltac c06_close := c06_zero; c06_sqrt_unify; first [ ring | field; repeat split; c06_nz ].
+Ltac c06_nz :=
+  repeat first [ apply Rmult_integral_contrapositive_currified | apply Rinv_neq_0_compat | apply pow_nonzero ];
+  c06_nz_base.
+
+(* make the arguments of equal functions syntactically equal when they are provably equal *)
+Ltac c06_unify_fn f :=
+  repeat match goal with
+  | |- context [f ?a] =>
+      match goal with
+      | |- context [f ?b] =>
+          tryif constr_eq a b then fail else
+            (let H := fresh "Hs" in
+             assert (H : f b = f a)
+               by (apply f_equal; first [ ring | field; repeat split; c06_nz | lra ]);
+             rewrite H; clear H)
+      end
+  end.
+Ltac c06_unify_rpow :=
+  repeat match goal with
+  | |- context [rpow ?c ?a] =>
+      match goal with
+      | |- context [rpow ?d ?b] =>
+          tryif (constr_eq a b; constr_eq c d) then fail else
+            (let H := fresh "Hs" in
+             assert (H : rpow d b = rpow c a)
+               by (apply f_equal2; first [ reflexivity | lra | ring | field; repeat split; c06_nz ]);
+             rewrite H; clear H)
+      end
+  end.
+Ltac c06_unify :=
+  c06_unify_fn sqrt; c06_unify_fn exp; c06_unify_fn cos; c06_unify_fn sin; c06_unify_fn ln;
+  c06_unify_fn atan; c06_unify_fn asin; c06_unify_fn acos; c06_unify_fn tan; c06_unify_rpow.
+
+Ltac c06_sign :=
+  repeat match goal with
+  | |- context [sign ?x] =>
+      first [ rewrite (sign_eq_1 x) by c06_nz | rewrite (sign_eq_m1 x) by c06_nz ]
+  end.
+
+(* sqrt x = rpow (/2) x so that  x ** 1.5  differentiates to  1.5 * sqrt x *)
+Ltac c06_sqrt_as_rpow :=
+  match goal with
+  | |- context [rpow _ _] =>
+      repeat match goal with
+      | |- context [sqrt ?x] => rewrite <- (c06_rpow_half x) by c06_nz
+      end
+  | _ => idtac
+  end.
+
+Ltac c06_dom := c06_zero; unfold Rdiv in *; repeat split; try exact I; c06_nz.
+Ltac c06_close :=
+  c06_zero; unfold Rdiv in *; c06_sign; c06_sqrt_as_rpow; c06_unify;
+  first [ ring | field; repeat split; c06_nz ].
 
 Ltac c06_derive :=
   cbv beta zeta in *; c06_hyps;
   auto_derive; [ c06_dom | c06_close ].
 
 Ltac c06_const :=
-  cbv beta zeta in *; c06_hyps; repeat split; first [ reflexivity | ring | field; repeat split; c06_nz ].
+  cbv beta zeta in *; c06_hyps; repeat split;
+  first [ reflexivity | ring | unfold Rdiv in *; c06_unify; field; repeat split; c06_nz ].
